@@ -37,7 +37,7 @@ type SpecP struct {
 	Partition int32   `json:"partition,omitempty"`
 	Limit     int32   `json:"limit"`
 	Claims    int     `json:"claims,omitempty"`
-	// TemplateVolumes: 1 = the pod template itself declares volumes: an emptyDir and a persistentVolumeClaim
+	// TemplateVolumes: 1 = the pod template itself declares a hostname, a subdomain and volumes: an emptyDir and a persistentVolumeClaim
 	// volume named like the first claim template (legal; the claim template's volume takes its place in every pod)
 	TemplateVolumes int `json:"template_volumes,omitempty"`
 	// SelExpr: the selector uses matchExpressions only (no matchLabels)
@@ -57,6 +57,8 @@ type PodP struct {
 	Orphan bool `json:"orphan,omitempty"` // no owner reference (adoptable if labels match and not terminating)
 	// NoIdentity: pod lacks the pod-name label (identity drift -> the controller updates the pod)
 	NoIdentity bool `json:"no_identity,omitempty"`
+	// AltRef: the controller reference was written through the other served API version (v1alpha1); same UID
+	AltRef bool `json:"alt_ref,omitempty"`
 }
 
 // ORev: an orphan (unowned) revision carrying the selector labels and/or the upgrade marker.
@@ -120,11 +122,12 @@ const (
 	OpClaimTerminating // claim a gets a deletion timestamp and is held by the pvc-protection finalizer (somebody deleted it while in use)
 	OpEditSlotsRaw     // the user writes a delete-slots value that is not a list of int32: it denotes no slots
 	OpRelabelPod       // pod a is relabelled by hand so that it stops matching the selector (or matches again); its owner reference stays
+	OpAddStrayPod      // somebody creates a pod named S-0<a> (a leading-zero spelling of ordinal a) carrying the set's labels
 	numOpKinds
 )
 
 var opNames = [...]string{"reconcile", "kubelet", "refreshAll", "refreshPod", "refreshSet", "editReplicas", "slotAdd", "slotRemove",
-	"editTemplate", "editPartition", "editMeta", "userDeletePod", "settle", "scaleInAt", "pause", "markDeleting", "restart", "editLimit", "editStrategy", "setRecreate", "setRemove", "addOrphanPod", "orphanPod", "claimTerminating", "editSlotsRaw", "relabelPod"}
+	"editTemplate", "editPartition", "editMeta", "userDeletePod", "settle", "scaleInAt", "pause", "markDeleting", "restart", "editLimit", "editStrategy", "setRecreate", "setRemove", "addOrphanPod", "orphanPod", "claimTerminating", "editSlotsRaw", "relabelPod", "addStrayPod"}
 
 // Fault kinds for a reconcile op
 const (
@@ -153,7 +156,7 @@ type Op struct {
 	// Fault2 hits the Fault2Off-th call after the first fault, in the same reconcile (0 = none)
 	Fault2    int    `json:"fault2,omitempty"`
 	Fault2Off int    `json:"fault2_off,omitempty"`
-	FaultAt   int    `json:"fault_at,omitempty"`   // 1-based call index the fault hits; 0 = none; -1 = the first status write of the reconcile, -2 = the first pod create, -3 = the first pod delete, -4 = the first ControllerRevision delete
+	FaultAt   int    `json:"fault_at,omitempty"`   // 1-based call index the fault hits; 0 = none; -1 = the first status write of the reconcile, -2 = the first pod create, -3 = the first pod delete, -4 = the first ControllerRevision delete, -5 = the first uncached read of the set
 	Fault     int    `json:"fault,omitempty"`      // fault kind
 	InterAt   int    `json:"inter_at,omitempty"`   // 1-based call index before which an environment op runs; 0 = none
 	InterKind int    `json:"inter_kind,omitempty"` // env op kind (kubelet / refresh / edit …), same encoding as K
@@ -265,6 +268,9 @@ func applySpec(set *asv1.StatefulSet, s SpecP) {
 			{Name: "scratch", VolumeSource: corev1.VolumeSource{EmptyDir: &corev1.EmptyDirVolumeSource{}}},
 			{Name: "data", VolumeSource: corev1.VolumeSource{PersistentVolumeClaim: &corev1.PersistentVolumeClaimVolumeSource{ClaimName: "shared-data", ReadOnly: true}}},
 		}
+		// ... and a hostname and subdomain of its own (legal; the per-pod identity takes their place)
+		set.Spec.Template.Spec.Hostname = "db"
+		set.Spec.Template.Spec.Subdomain = "legacy-svc"
 	}
 	if s.ClaimLabels {
 		for i := range set.Spec.VolumeClaimTemplates {
@@ -512,6 +518,9 @@ func BuildWorld(rep Rep, w *World) *Sys {
 		}
 		if pp.NoIdentity {
 			delete(p.Labels, "statefulset.kubernetes.io/pod-name")
+		}
+		if pp.AltRef && len(p.OwnerReferences) == 1 {
+			p.OwnerReferences[0].APIVersion = "apps.pingcap.com/v1alpha1"
 		}
 		c.Put(p)
 		for _, v := range p.Spec.Volumes {
@@ -781,6 +790,28 @@ func (s *Sys) envOp(k, a, b int) {
 				s.logf("somebody creates unowned pod %s", name)
 			}
 		}
+	case OpAddStrayPod:
+		if set := c.Set(NS, s.Name); set != nil {
+			ord := abs(a) % 5
+			name := fmt.Sprintf("%s-0%d", s.Name, ord)
+			if c.Pod(NS, name) == nil {
+				img := set.Spec.Template.Spec.Containers[0].Image
+				p := mkPod(set, ord, "", img, 3, false)
+				p.Name = name
+				p.Spec.Hostname = name
+				p.Labels["statefulset.kubernetes.io/pod-name"] = name
+				for t, rn := range s.RevOf {
+					if tmplImage(t) == img {
+						p.Labels["controller-revision-hash"] = rn
+					}
+				}
+				if abs(b)%2 == 1 {
+					p.OwnerReferences = nil
+				}
+				c.Put(p)
+				s.logf("somebody creates pod %s (leading-zero spelling of ordinal %d, owned=%v)", name, ord, abs(b)%2 == 0)
+			}
+		}
 	case OpRelabelPod:
 		if p := s.pickPod(a); p != nil {
 			if p.Labels == nil {
@@ -958,6 +989,11 @@ func (s *Sys) Reconcile(op *Op) *sim.Record {
 			faultDone = true
 			return s.makeFault(op.Fault, a)
 		}
+		if op.FaultAt == -5 && !faultDone && a.Resource == "statefulsets" && a.Verb == "get" {
+			faultDone = true
+			fault1At = n
+			return s.makeFault(op.Fault, a)
+		}
 		if op.FaultAt == -4 && !faultDone && a.Resource == "controllerrevisions" && a.Verb == "delete" {
 			faultDone = true
 			fault1At = n
@@ -1111,6 +1147,7 @@ func genPodsSized(rt *rapid.T, histLen int, orphans, big bool) []PodP {
 			p.Orphan = rapid.IntRange(0, 9).Draw(rt, "orphan") == 0
 		}
 		p.NoIdentity = rapid.IntRange(0, 14).Draw(rt, "noIdentity") == 0
+		p.AltRef = !p.Orphan && rapid.IntRange(0, 14).Draw(rt, "altRef") == 0
 		pods = append(pods, p)
 	}
 	return pods
